@@ -52,7 +52,7 @@ fn setup<F: BoolExt>(s: &mut Session<F>, seed: u64) -> Option<Setup> {
     let mut rng = Rng::new(seed);
     let vars: Vec<Slot> = (0..4).map(|v| s.var(v)).collect::<Option<Vec<_>>>()?;
     let mut pool = vars.clone();
-    for _ in 0..6 {
+    for _ in 0..10 {
         let a = pool[rng.below(pool.len())];
         let b = pool[rng.below(pool.len())];
         let x = s.bin(BIN_OPS[rng.below(8)], a, b)?;
@@ -125,7 +125,7 @@ pub fn oom<F: BoolExt>(args: &Args) {
     let mut failures = 0u64;
     let mut retried = 0u64;
     let nvars = 10u32;
-    let seeds: Vec<u64> = if thorough { (0..6).map(|i| seed * 100 + i).collect() } else { vec![seed * 100] };
+    let seeds: Vec<u64> = if thorough { (0..8).map(|i| seed * 100 + i).collect() } else { vec![seed * 100, seed * 100 + 1] };
     for &sd in &seeds {
         for sc in scenarios::<F>() {
             for threads in if thorough { vec![1u32, 4] } else { vec![1u32, 3] } {
@@ -148,7 +148,7 @@ pub fn oom<F: BoolExt>(args: &Args) {
                     let mut s: Session<F> =
                         Session::new_tagged(&mut out, c, 16, threads, if threads > 1 { "mt" } else { "" });
                     if threads > 1 {
-                        s.mref.with_manager_shared(|m| F::set_split_depth(m, Some(2)));
+                        s.mref.with_manager_shared(|m| F::set_split_depth(m, Some(4)));
                     }
                     s.add_vars(nvars);
                     let Some(su) = setup(&mut s, sd) else {
